@@ -50,3 +50,5 @@ require (
 )
 
 replace github.com/shutter-network/rolling-shutter/rolling-shutter => /repo/rolling-shutter
+
+replace github.com/jackc/pgx/v4 => ./third_party/pgx
